@@ -72,7 +72,7 @@ ASSUMPTIONS = [
     "pandas on the unpartitioned frame is the reference",
     "dask.dataframe is imported through the pyarrow import stub (pandas-backed strings); sync scheduler",
 ]
-BUDGET = {"quick": 60, "thorough": 540}
+BUDGET = {"quick": 90, "thorough": 600}
 FLOORS = {
     "quick": {"evaluations": 2400, "distinct_nontrivial": 1700,
               "counters": {"compared": 1750, "compared:cum": 900, "compared:rolling": 260, "compared:shift": 120,
